@@ -194,7 +194,7 @@ func TestC18Events(t *testing.T) {
 
 type reCell struct {
 	Event   string // socket event, "srv.<event>" or "callback"
-	Action  string // Send | Close(false) | Close(true)
+	Action  string // Send | Close(false) | Close(true) | Send+Close(false) | Send+Close(true)
 	Carrier string
 	Once    bool // the listener is registered with Once instead of On
 }
@@ -212,7 +212,7 @@ var reServerEvents = []string{"srv.connection", "srv.flush", "srv.drain", "srv.i
 func reCells() []reCell {
 	var out []reCell
 	for _, car := range []string{"polling", "websocket", "webtransport"} {
-		for _, act := range []string{"Send", "Close(false)", "Close(true)"} {
+		for _, act := range []string{"Send", "Close(false)", "Close(true)", "Send+Close(false)", "Send+Close(true)"} {
 			for _, once := range []bool{false, true} {
 				for _, ev := range reSocketEvents {
 					out = append(out, reCell{ev, act, car, once})
@@ -250,6 +250,13 @@ func runReCell(c reCell) (fired bool, fail string) {
 			sock.Send(types.NewStringBufferString("from a listener"), nil, nil)
 		case "Close(false)":
 			sock.Close(false)
+		case "Send+Close(false)":
+			// a last word, then an orderly close: the close finds a packet in the write buffer
+			sock.Send(types.NewStringBufferString("bye from a listener"), nil, nil)
+			sock.Close(false)
+		case "Send+Close(true)":
+			sock.Send(types.NewStringBufferString("bye from a listener"), nil, nil)
+			sock.Close(true)
 		default:
 			sock.Close(true)
 		}
@@ -374,7 +381,7 @@ func mutexBlocked() map[string]string {
 
 func TestC18Reentrancy(t *testing.T) {
 	col := NewCollector("TestC18Reentrancy",
-		"exhaustive matrix: {listener registered with On, with Once} x {socket events packet, packetCreate, data, message, heartbeat, flush, drain, close, upgrading, upgrade; server events connection, flush, drain, initial_headers, headers; send callback} x {Send, Close(false), Close(true)} x {polling, websocket, webtransport}: a listener of the event performs the call the first time it fires, inside a scenario that makes the event fire; oracle: the scenario runs to quiescence and the session still round-trips a message (or is properly closed). A cell that does not finish is examined from outside the bubble: goroutines of the library blocked on a mutex in two stack dumps one second apart prove a deadlock. every cell is non-trivial").Use(t)
+		"exhaustive matrix: {listener registered with On, with Once} x {socket events packet, packetCreate, data, message, heartbeat, flush, drain, close, upgrading, upgrade; server events connection, flush, drain, initial_headers, headers; send callback} x {Send, Close(false), Close(true), Send then Close(false), Send then Close(true)} x {polling, websocket, webtransport}: a listener of the event performs the call the first time it fires, inside a scenario that makes the event fire; oracle: the scenario runs to quiescence and the session still round-trips a message (or is properly closed). A cell that does not finish is examined from outside the bubble: goroutines of the library blocked on a mutex in two stack dumps one second apart prove a deadlock. every cell is non-trivial").Use(t)
 	known := isKnown("C18", sigFlushReentrancy)
 	var wedged []string
 	for _, c := range reCells() {
